@@ -23,6 +23,7 @@ REPLIES = ['-2-0', '1,-1-1', '-1-0', '0--1', '0', '1', '2', '0,1', '1,0', '0-1',
 
 
 RULE += ' Since round 8 a quarter of the runs carry --overwrite (the listing is judged alike).'
+RULE += ' Since round 19 a family with entries spread over the home trash and both volume trash directories of one or two volumes.'
 
 
 def gen(rng, n):
@@ -225,6 +226,69 @@ def judge(run, scn, meta, res, order_hint, section='state'):
     run.nontriv(('sel', esc(meta['reply']), n, meta['sort'], refused, path == '/'))
 
 
+def gen_volumes(rng, n):
+    """entries of the SAME user spread over the home trash, $topdir/.Trash/$uid and $topdir/.Trash-$uid of one or two volumes (both
+    volume directories can hold entries at once: .Trash was created after people had trashed into .Trash-$uid): all of them are offered,
+    numbered in one list; an insecure .Trash/$uid is not."""
+    scns, metas = [], []
+    for i in range(n):
+        tree = [['d', '/home/u', 0o755]] + scen.canary()
+        vols = ['/vol1'] + (['/vol1/inner'] if rng.random() < 0.3 else [])
+        ents, hidden = [], 0
+        k = 0
+        for v in vols:
+            tree.append(['d', v, 0o755])
+            state = rng.choice(['sticky', 'sticky', 'nonsticky', 'absent', 'link'])
+            if state == 'sticky':
+                tree.append(['d', v + '/.Trash', 0o1777])
+            elif state == 'nonsticky':
+                tree.append(['d', v + '/.Trash', 0o777])
+            elif state == 'link':
+                tree += [['d', v + '/real', 0o1777], ['l', v + '/.Trash', v + '/real']]
+            for td, ok in ((v + '/.Trash/0', state == 'sticky'), (v + '/.Trash-0', True)):
+                if td.endswith('/.Trash/0') and state == 'absent':
+                    continue
+                real = td if state != 'link' or not td.endswith('/.Trash/0') else v + '/real/0'
+                for _ in range(rng.randint(0, 2)):
+                    rel = rng.choice(['docs/f%d' % k, 'f%d' % k, 'docs/sub/g%d' % k])
+                    date = rng.choice(scen.DATES)
+                    tree += scen.entry(real, 'e%d' % k, rel, date, 'f')
+                    if ok:
+                        ents.append({'loc': v + '/' + rel, 'date': date})
+                    else:
+                        hidden += 1
+                    k += 1
+        for _ in range(rng.randint(0, 2)):
+            loc = rng.choice(['/home/u/h%d' % k, '/vol1/docs/h%d' % k])
+            date = rng.choice(scen.DATES)
+            tree += scen.entry('/home/u/.local/share/Trash', 'e%d' % k, loc, date, 'f')
+            ents.append({'loc': loc, 'date': date})
+            k += 1
+        scope = rng.choice(['/', '/vol1', '/vol1/docs', '/vol1/inner', '/home'])
+        sort = rng.choice(['date', 'path', None])
+        step = {'cmd': 'restore', 'argv': [scope] + (['--sort', sort] if sort else []), 'stdin': '\n', 'listdir': rng.choice(['sorted', 'reverse'])}
+        scns.append({'tree': tree, 'mounts': vols, 'cwd': '/', 'uid': 0, 'env': {'HOME': '/home/u', 'TRASH_VOLUMES': ':'.join(['/'] + vols)}, 'steps': [step]})
+        metas.append({'ents': ents, 'scope': scope, 'hidden': hidden})
+    return scns, metas
+
+
+def judge_volumes(run, scn, meta, res, section='volumes'):
+    o = res['steps'][0]
+    run.count(section)
+    case = {'scenario': scn, 'meta': meta, 'exit': o['exit'], 'stdout': o['stdout'][-600:], 'stderr': o['stderr'][-300:]}
+    lines = [l for l in o['stdout'].split('\n') if l[:4].strip().isdigit() and len(l) > 5 and l[4] == ' ']
+    got = sorted((l[25:], l[5:24]) for l in lines)
+    want = sorted((e['loc'], e['date'].replace('T', ' ')) for e in meta['ents'] if in_scope(e['loc'], meta['scope']))
+    if [int(l[:4]) for l in lines] != list(range(len(lines))):
+        run.fail('oracle', 'the listing is not numbered 0..n-1', case, key='bad-numbering', section=section)
+    elif got != want:
+        run.fail('oracle', 'trash-restore does not offer exactly the entries at or below the requested directory (entries spread over the home trash, '
+                 '$topdir/.Trash/$uid and $topdir/.Trash-$uid)', dict(case, offered=got, expected=want), key='wrong-scope:volumes', section=section)
+    elif engine.changed_paths(res['before'], o['after']):
+        run.fail('oracle', 'an empty reply changed something', case, key='restored-on-invalid-reply', section=section)
+    run.nontriv(('volumes', len(want), meta['hidden'] > 0, meta['scope']))
+
+
 def run(run, thorough):
     fn_logic.indexes(run, thorough)
     fn_logic.scope(run, thorough)
@@ -237,6 +301,10 @@ def run(run, thorough):
         jobs.append(('select', 'x', res['steps'][0], {'scenario': scn}))
     engine.run_monitors(run, 'selection-monitor', jobs, 'the selection monitor (Coq, C13) rejects the implementation trace: a mutation although the '
                         'reply does not denote in-range indexes', 'mutation-on-invalid-reply', silent=True)
+    vs, vm = gen_volumes(run.rng, 120 if not thorough else 1500)
+    by_idv = {id(s): m for s, m in zip(vs, vm)}
+    for scn, res in engine.run_all(run, 'restore-volumes', vs):
+        judge_volumes(run, scn, by_idv[id(scn)], res)
     if out:
         run.sample({'level': 'state', 'argv': out[0][0]['steps'][0]['argv'], 'reply': esc(metas[0]['reply']), 'locations': [e['loc'] for e in metas[0]['ents']]})
 
@@ -258,6 +326,9 @@ def replay(run, payload):
     print('trash-restore', scn['steps'][0]['argv'], repr(scn['steps'][0].get('stdin')), 'cwd', scn['cwd'], 'exit', o['exit'])
     print(esc(o['stdout'][:800]))
     print(esc(o['stderr'][:300]))
+    if 'hidden' in (case.get('meta') or {}):
+        judge_volumes(run, scn, case['meta'], res, 'replay')
+        return
     from urllib.parse import unquote
     ents = []
     for e in scn['tree']:
